@@ -1,28 +1,28 @@
 #!/bin/bash
 # confirm_seeded.sh <ID> <n> [props...]
-# Confirms one sub-agent change from /tmp/seeded-out/<ID>/<n> in a scratch worktree of /repo HEAD:
-#   build, pinned tests pass, demonstration fails on the changed tree and passes on the clean tree,
-# then runs the named property checks (default: <ID>) against the changed tree (evidence redirected to scratch).
-# Prints one RESULT line; stores nothing under /verif.
+# Re-confirms one seeded change kept under /verif/seeded/<ID>-<n> in a scratch worktree of /repo HEAD (under /tmp, removed afterwards):
+#   the patch applies and builds, the pinned tests pass, the demonstration passes on the unchanged tree and fails on the changed tree,
+# then runs the named property checks (default: <ID>) against the changed tree with the evidence redirected to scratch.
+# Prints one RESULT line; /repo and /verif/evidence are not touched.  (SRC=<dir> overrides the source directory.)
 id=$1; n=$2; shift 2; props=${@:-$id}
-src=/tmp/seeded-out/$id/$n
-wt=/tmp/wt/confirm-$id-$n
+src=${SRC:-/verif/seeded/$id-$n}
+wt=/tmp/wt-confirm-$id-$n
+GOVC=${GOVC:-/verif/bin/govc}
 export GOFLAGS=-mod=mod GOPROXY=off GOSUMDB=off GOTOOLCHAIN=local
 git -C /repo worktree remove --force $wt 2>/dev/null
 git -C /repo worktree add -q --detach $wt HEAD || exit 2
 pkg=$(python3 -c "import json;print(json.load(open('$src/meta.json'))['package_for_demo'])")
-# demo on clean tree must pass
 cp $src/zz_demo_test.go $wt/$pkg/zz_demo_test.go
 (cd $wt && go test -vet=off -count=1 -timeout 180s -run '^TestSeededDemo$' $pkg >/tmp/confirm-$id-$n.clean.log 2>&1); clean=$?
 (cd $wt && git apply $src/patch.diff) || { echo "RESULT $id/$n patch-does-not-apply"; git -C /repo worktree remove --force $wt; exit 1; }
 (cd $wt && go build ./... >/tmp/confirm-$id-$n.build.log 2>&1); build=$?
 (cd $wt && go test -vet=off -count=1 -timeout 180s -run '^TestSeededDemo$' $pkg >/tmp/confirm-$id-$n.mut.log 2>&1); mut=$?
 rm -f $wt/$pkg/zz_demo_test.go
-/tmp/muttools/run_stable.sh $wt >/tmp/confirm-$id-$n.tests.log 2>&1; tests=$?
+/verif/tools/run_stable.sh $wt >/tmp/confirm-$id-$n.tests.log 2>&1; tests=$?
 caught=""
 for p in $props; do
   ev=/tmp/confirm-ev-$id-$n-$p; rm -rf $ev; mkdir -p $ev
-  out=$(cd /verif && VERIF_EVIDENCE_DIR=$ev ${GOVC:-/tmp/govc-frozen} check -repo $wt -property $p -tier quick 2>&1); rc=$?
+  out=$(cd /verif && VERIF_EVIDENCE_DIR=$ev $GOVC check -repo $wt -property $p -tier quick 2>&1); rc=$?
   v=$(echo "$out" | grep -c '^VIOLATION')
   first=$(echo "$out" | grep '^VIOLATION' | head -3 | sed 's/.*replays\/[A-Z0-9]*\///' | tr '\n' ';')
   caught="$caught $p:rc=$rc,viol=$v[$first]"
@@ -30,3 +30,4 @@ for p in $props; do
 done
 echo "RESULT $id/$n build=$build pinned_tests=$tests demo_clean=$clean(0=pass) demo_changed=$mut(!=0 fail) checks:$caught"
 git -C /repo worktree remove --force $wt
+rm -f /tmp/confirm-$id-$n.*.log
